@@ -27,7 +27,7 @@ import can
 
 
 class Frame:
-    __slots__ = ("ts", "src", "can_id", "ext", "rtr", "data", "thread", "injected", "dlc")
+    __slots__ = ("ts", "src", "can_id", "ext", "rtr", "data", "thread", "injected", "dlc", "wall")
 
     def __init__(self, ts, src, can_id, ext, rtr, data, thread=None, injected=False, dlc=None):
         self.ts = ts
@@ -39,6 +39,7 @@ class Frame:
         self.thread = thread
         self.injected = injected
         self.dlc = len(self.data) if dlc is None else dlc
+        self.wall = time.time()            # wall clock when the frame entered the bus (never a verdict, only triage of time-outs)
 
     def replace(self, **kw):
         f = Frame(self.ts, self.src, self.can_id, self.ext, self.rtr, self.data, self.thread, True, self.dlc)
@@ -236,7 +237,7 @@ class _StationBase:
                         time.sleep(bus.max_delay * rng.random())
                 if not self.detached:
                     self.deliver(frame)
-                    bus.delivered.append((frame.ts, self.name, frame))
+                    bus.delivered.append((frame.ts, self.name, frame, time.time()))
             finally:
                 self._busy = False
                 with bus._inflight_lock:
